@@ -16,14 +16,15 @@ CLAIMED = {
     "C05": ("async-aware linear-resource analysis on MIR (rustc MaybeInitializedPlaces at every Yield; whole-program may-suspend and run-to-completion fixpoints)",
             "Decides: no owned write batch is live at a really-suspending await of a coroutine that can be dropped, no batch reaches a Drop on a normal path, "
             "lock-guard Drop impls release+notify, undo-token defuse sites, executor only under catch_unwind, wait-before-publish, panic resumed before "
-            "publishing with the computing guard owned, every column write in a run-to-completion body, Guard::drop spawns. Not decided: correctness of values after a cut.",
+            "publishing with the computing guard owned, every column write in a run-to-completion body, Guard::drop spawns, no input-session guard held across an await of a droppable coroutine. Not decided: correctness of values after a cut.",
             "Trusted: rustc nightly MIR + its MaybeInitializedPlaces analysis, CHA over the workspace's StorageEngine impls, tokio::spawn runs futures to completion."),
 }
 CLAIMED["C01"] = (
     "MIR loop-form must-pass-through, match-arm sibling agreement, dominance and def-use links (rustc_private driver, custom rules)",
     "Decides protocol obligations that are necessary for the invalidation closure to be complete (every backward edge marked or buffered, buffered marks "
     "drained after the barrier into the same batch, Single/Unordered arms symmetric, stored order == wired order, dependencies cleared before re-execution, "
-    "propagate before submit, Hit only at the caller's epoch, Cleaned only on equal fingerprints, unordered groups fenced by unsafe). It does NOT decide that "
+    "propagate before submit, Hit only at the caller's epoch, Cleaned only on equal fingerprints, the compared fingerprint is the fingerprint of the value that is stored, "
+    "unordered groups fenced by unsafe). It does NOT decide that "
     "incremental values equal from-scratch values.",
     "Trusted: rustc nightly MIR construction; the frozen anchor table in engine/qbv/rules/C01.py; executors are pure.")
 
@@ -31,27 +32,29 @@ CLAIMED["C02"] = (
     "typestate / who-may-construct rules, listener-before-unlock dominance, lock-gap write-back rule (guard lifetimes from rustc's maybe-init analysis) over all bodies, join-loop exit rules",
     "Decides: executor reachable only with a ComputingLockGuard that is built only in the Vacant arm after insert_entry; waiters create their listener under the "
     "entry/shard lock and release it before awaiting; finishers remove before notify; no store through a re-acquired lock of data computed in an earlier critical "
-    "section without re-check (whole workspace); lock-table pin predicate; parallel repair results trusted only after all chunks were joined. Not decided: soundness "
+    "section without re-check, and no check-then-act on a concurrent map across separate lock acquisitions (whole workspace); lock-table pin predicate; parallel repair results trusted only after all chunks were joined. Not decided: soundness "
     "and termination over all interleavings.",
     "Trusted: rustc nightly MIR + MaybeInitializedPlaces; scc entry_sync holds the bucket lock; Notify semantics; the frozen anchors in engine/qbv/rules/C02.py and lockgap.py.")
 CLAIMED["C03"] = (
     "control-dependence (flag-sensitive edge dominance) of every work-starting / dirtiness-spreading site on its justifying predicate, recognised semantically (PartialEq results, enum discriminants, promoted constants)",
     "Decides: inputs enqueued only on fingerprint change; propagation stops at firewall/projection callers; recomputed firewall/projection spreads only on change; "
-    "in-lock double check; re-execution only on Recompute/backward-projection; clean edges skipped by exactly the documented condition; executor call sites. "
+    "in-lock double check; re-execution only on Recompute/backward-projection; clean edges skipped by exactly the documented condition; executor call sites; "
+    "the pending-projection marker is honoured only at its own epoch; epochs are only ever compared for equality. "
     "Not decided: minimality per invocation over all histories.",
     "Trusted: rustc nightly MIR; the frozen anchors in engine/qbv/rules/C03.py.")
 
 CLAIMED["C06"] = (
     "MIR dominance and loop-form must-pass-through on the cycle-detection protocol, branch-polarity rules on the SCC flag",
     "Decides: wait-for edge registered before the first probe and before any wait; a probe at the head of every retry iteration; probe before wait in exit_scc; "
-    "SCC flag marked before CyclicError, error exactly on the cyclic branch; final SCC check before every Ok return; the probe marks the found path and visits all "
-    "callees; execute_query substitutes the cycle default exactly in-SCC and resumes a caught panic exactly outside; only TrackedEngine::query raises the cyclic payload "
+    "SCC flag marked before CyclicError, error exactly on the cyclic branch; final SCC check before every Ok return; the probe visits every callee of every reached "
+    "computation once (visited set keyed by identity, no constant answer, no lock held while descending) and marks the found path; execute_query substitutes the cycle default exactly in-SCC and resumes a caught panic exactly outside; only TrackedEngine::query raises the cyclic payload "
     "and it caches Ok values only. Not decided: termination / values for all graphs.",
     "Trusted: rustc nightly MIR; scc::HashMap insert visibility; the frozen anchors in engine/qbv/rules/C06.py.")
 
 CLAIMED["C07"] = (
     "must-pass-through / def-use rules on the publication bodies, field-coverage table for Drop for Database, shutdown join order, epoch reload link, per-value session rule",
-    "Decides: each publication writes one batch and submits it exactly once on every normal path; ordered shutdown with the committer's final drain; every "
+    "Decides: each publication writes one batch and submits it exactly once on every normal path, and unconditionally writes every column a reader of the node needs "
+    "(kind, last-verified, node info, both edge columns, input and result); ordered shutdown with the committer's final drain; every "
     "ManuallyDrop field of Database (incl. the write manager) is drained and waited for; the epoch is reloaded from and stored to the timestamp column; every top-level "
     "encoding uses a fresh interning session. Not decided: faithfulness of the stored image across restarts for all histories.",
     "Trusted: rustc nightly MIR; spawn_blocking runs its closure; frozen anchors in engine/qbv/rules/C07.py and C10.py.")
@@ -59,11 +62,12 @@ CLAIMED["C09"] = (
     "sibling agreement + def-use links on the six cached-map write sites, control-dependence rules on the pin protocol, commit-before-notify dominance",
     "Decides: the batch's `newly recorded` bool is the cache's `updated` flag at all 6 write sites; pin count raised exactly under `updated`; negative entry on "
     "remove-vacant; physical removal only at pin 0; miss-fill only in the Vacant arm; commit precedes un-pin notifications; un-pinned keys are exactly the "
-    "drained keys; staged set operations carry the batch epoch. Not decided: read-your-writes under all races.",
+    "drained keys; staged set operations carry the batch epoch and are replayed sorted by (epoch, issue sequence); no order-sensitive fold iterates an unordered "
+    "collection. Not decided: read-your-writes under all races.",
     "Trusted: rustc nightly MIR; TinyLFU::entry runs under the bucket lock; C16.a for eviction.")
 CLAIMED["C10"] = (
     "control-dependence on `epoch == expected`, who-may-assign rules on WriteBatch::{active,epoch}, def-use through the pipeline tasks, join-order dominance, signature/impl-table checks",
-    "Decides: apply only the expected epoch and advance on the same path; reversed heap order; inactive only after commit; one epoch source; the submitted batch "
+    "Decides: apply only the expected epoch and advance on the same path; the committer gives up only when the heap is empty or its top is not the expected epoch; reversed heap order; inactive only after commit; one epoch source; the submitted batch "
     "flows unchanged through serialize->commit; ordered shutdown with final drain+flush; submit moves the batch and WriteBatch is not Clone. Not decided: equality "
     "with the sequential model for all arrival orders.",
     "Trusted: rustc nightly MIR; crossbeam channel and BinaryHeap semantics.")
@@ -84,14 +88,15 @@ CLAIMED["C11"] = (
     "sibling agreement over the key-construction call sequences of 2 backends x (5 wide-column + 4 member + scan) sites, def-use links buffer->store, discriminant table extraction, length-prefix arithmetic shape",
     "Decides: readers and writers of one column build identical key bytes by construction (same encoder calls, same generic arguments, same buffer handed to the store); "
     "discriminant before/after the key exactly per layout; member keys = len-prefixed key ++ element; scans seek the same prefix with an upper bound derived from it "
-    "and decode elements at 8+len; per-column discriminants pairwise distinct; column names derive from the full StableTypeID. Not decided: byte-level bound "
+    "and decode elements at 8+len; RocksDB's bound is cut after the incremented byte (prefix successor; the scan has no starts_with filter); per-column discriminants pairwise distinct; column names derive from the full StableTypeID. Not decided: byte-level bound "
     "arithmetic, third-party store behaviour, reopen.",
     "Trusted: rustc nightly MIR (both build shapes); self-delimiting encodings (C12.b); distinct StableTypeIDs (C14).")
 CLAIMED["C12"] = (
     "wire-shape extraction: Encode/Decode MIR bodies -> finite automata over wire events, impl selection by type unification, determinisation + product search for language equivalence; primitive table by delegation closure",
     "Decides: every Decode impl (119, incl. macro-generated and derived, smallvec/bitvec on) reads exactly the event language that the Encode impl selected for the "
     "same type writes, including tag constants; repetitions are length-prefixed and variant alternations start with distinct constant tags; emit_X/read_X use the "
-    "same wire primitive for all 19 X. Not decided: varint/zig-zag arithmetic, value equality after decoding.",
+    "same wire primitive for all 19 X; for 26 + 15 (derive fixtures) struct/enum types the i-th value written comes from the field the i-th value read is stored into; "
+    "interned handles: C15.c's first-occurrence rule (as C12.f). Not decided: varint/zig-zag arithmetic, value equality after decoding.",
     "Trusted: rustc nightly MIR; ToOwned pairs encode alike (checked for str/String, [T]/Vec<T>, Path/PathBuf).")
 CLAIMED["C13"] = (
     "framing rules (length before repetition, discriminant before alternation) and order-independence rules over every StableHash MIR body; forbidden-input who-may-call rule; float/integer/seeding def-use rules",
@@ -103,7 +108,7 @@ CLAIMED["C13"] = (
 CLAIMED["C14"] = (
     "table extraction from the MIR of every STABLE_TYPE_ID constant (parameters folded, combine-chain shape, base names), purity of the const fns, word-level def-use links of the QueryID packing",
     "Decides: every type/const parameter of every Identifiable impl (145, incl. derives) reaches the id through an unbroken, non-symmetric combine chain; base names "
-    "(with chain length) are pairwise distinct; ids are pure const fns; from_raw_parts is unsafe and used at 2 audited sites; QueryID packs (type id, key hash) and "
+    "(with chain length) are pairwise distinct and derived names are `<pkg>@<version>::<module path>::<type>`; ids are pure const fns; from_raw_parts is unsafe and used at 2 audited sites; QueryID packs (type id, key hash) and "
     "unpacks high/low consistently; registry and value store are keyed by <Q>::STABLE_TYPE_ID. Not decided: collision freedom of the 128-bit values.",
     "Trusted: rustc nightly MIR of associated consts; concat!/module_path! expansion by rustc.")
 CLAIMED["C15"] = (
@@ -146,7 +151,9 @@ m = {
     ],
     "checks": checks,
     "not_applicable": [{"property_id": i, "reason": NOT_YET} for i in ids if i not in CLAIMED],
-    "notes": "Technique family: static analysis only (no execution of the engine). See DESIGN.md. Fixed defects are logged in known_findings.json.",
+    "notes": "Technique family: static analysis only (no execution of the engine). quick = all rules on the RocksDB-free build shape (plus the shapes a rule names itself); "
+             "thorough = quick plus a second pass of every rule on the full workspace build (default features, integration-test crate). See DESIGN.md. "
+             "Fixed defects are logged in known_findings.json.",
 }
 json.dump(m, open(os.path.join(HERE, "MANIFEST.json"), "w"), indent=1)
 print("claimed:", [c["property_id"] for c in checks])
